@@ -81,6 +81,13 @@ class SpreadsheetValidator:
         # Check the rows of the input data
         issues += self._run_checks(df, error_handler=error_handler, row_adj=row_adj, onset_mask=onset_mask)
         if self._onset_validator:
+            # Rows that failed take no part in the time-ordered checks: drop them before rows sharing an onset are
+            # merged, so that they neither hide nor spoil the valid rows of their time point.
+            if self.invalid_original_rows:
+                series = data.series_a.copy()
+                series.loc[list(self.invalid_original_rows)] = ""
+                onsets = df_util.split_delay_tags(series, self._schema, data.onsets)
+                onsets = onsets[~pd.isna(pd.to_numeric(onsets['onset'], errors='coerce'))]
             issues += self._run_onset_checks(onsets, error_handler=error_handler, row_adj=row_adj)
         error_handler.pop_error_context()
 
@@ -136,9 +143,6 @@ class SpreadsheetValidator:
     def _run_onset_checks(self, onset_filtered, error_handler, row_adj):
         issues = []
         for row in onset_filtered[["HED", "original_index"]].itertuples(index=True):
-            # Skip rows that had issues.
-            if row.original_index in self.invalid_original_rows:
-                continue
             error_handler.push_error_context(ErrorContext.ROW, row.original_index + row_adj)
             row_string = HedString(row.HED, self._schema, self._hed_validator._def_validator)
 
